@@ -4,7 +4,8 @@
     Z, positive, nat stay the extracted inductives. *)
 From Coq Require Import ZArith List String.
 From Coq Require Import ExtrOcamlBasic ExtrOcamlString.
-From TV Require Import Layout.Types gen.Tables gen.Pinned Model.Monad Model.Ints Model.Decoder Model.Message Model.Pump Model.Show Model.Attr Model.RC Model.Frontends Spec.Value Spec.Message.
+Import ListNotations.
+From TV Require Import Layout.Types gen.Tables gen.Pinned Model.Monad Model.Ints Model.Decoder Model.Message Model.Pump Model.Show Model.Attr Model.RC Model.Frontends Model.Pretty Model.Cli Spec.Value Spec.Message.
 
 Definition tables_current : tables := Tables.T.
 Definition tables_pinned : tables := Pinned.T.
@@ -56,9 +57,56 @@ Definition run_spec_lenient (T : tables) (r : root) (input : list Z) : string :=
   | None => "NOTWF"%string
   end.
 
+(** pretty printer: the model decodes, converts its events to printer events and prints rows *)
+Definition find_prim (ps : list prim) (n : string) : option prim :=
+  find (fun p => String.eqb (pname p) n) ps.
+Definition to_pev (ps : list prim) (a : action) : pev :=
+  match a with
+  | Ev e =>
+      match ety e, evalue e with
+      | TyList en, _ => PList (epath e) en (String.eqb en "BYTE")
+      | TyN n, Some z => match find_prim ps n with Some p => PPrim (epath e) p z | None => PStruct (epath e) n end
+      | TyN n, None => PStruct (epath e) n
+      | TyEnc n, _ => PStruct (epath e) n
+      end
+  | Wn w => PWarn ""
+  | Rd _ => PWarn "?"
+  end.
+Definition show_prow (r : row) : string :=
+  match r with
+  | RField tn dp nm hx v _ =>
+      sconcat "|"%string ["F"%string; tn; dec_string (Z.of_nat dp); nm; show_hex_ hx; v]
+  | RBits dp nm bits => sconcat "|"%string ["B"%string; dec_string (Z.of_nat dp); nm; bits]
+  | RWarn _ _ => "W"%string
+  | RCrashRow => "CRASH"%string
+  end.
+Definition run_pretty (cur : bool) (abort : bool) (r : root) (input : list Z) : string :=
+  let T := if cur then Tables.T else Pinned.T in
+  let d := if cur then Tables.rc_default_name else Pinned.rc_default_name in
+  let ps := if cur then Tables.all_prims else Pinned.all_prims in
+  sconcat (String (Ascii.ascii_of_nat 30) EmptyString)
+          (map show_prow (pretty T d (map (fun e => to_pev ps (fst e)) (fst (decode T abort r input))))).
+
+(** command line decision *)
+Definition cli_types (T : tables) : list string :=
+  app (map fst (types T)) ["Command"; "Response"; "CommandResponseStream"]%string.
+Definition cli_ccs (T : tables) : list (string * Z) :=
+  match pkind_ (p_cc T) with
+  | KEnum ms => flat_map (fun m => match m with EMConst n v => [(n, v)] | _ => [] end) ms
+  | _ => []
+  end.
+Definition run_cli (t c : option string) (f : string) : string :=
+  match cli_decide (cli_types Tables.T) (cli_ccs Tables.T) t c f with
+  | Refused w => String.append "REFUSED " w
+  | Incompatible => "INCOMPATIBLE"%string
+  | Decode CliStream _ => "DECODE stream"%string
+  | Decode (CliType n) _ => String.append "DECODE type " n
+  | Decode (CliResponse cc) _ => String.append "DECODE response " (dec_string cc)
+  end.
+
 Extraction "Extract/model.ml"
   tables_current tables_pinned prims_current prims_pinned
-  run_decode run_obj run_spec run_spec_lenient run_attr run_rc run_rc_spec run_fe_hex run_fe_swtpm run_fe_auto run_fe_pcap find_type
+  run_decode run_obj run_spec run_spec_lenient run_attr run_rc run_rc_spec run_cli run_pretty run_fe_hex run_fe_swtpm run_fe_auto run_fe_pcap find_type
   prim_text prim_bytes valid representable pname pwidth psigned pkind_
   hex2 dec_string show_hex_
   RType RCommand RResponse RStream.
